@@ -120,6 +120,10 @@ class Block2Cache:
         block_key = _extract_block_key(req)
 
         if req.opt.block2 is None or req.opt.block2.block_number == 0:
+            # Whatever was rendered for an earlier request is superseded now,
+            # even if the new rendering turns out not to need storing (fits
+            # into one block, or is an error)
+            self._completes.discard(block_key)
             assembled = await response_builder()
         else:
             try:
